@@ -63,6 +63,13 @@ def setup_call_ranges(P):
     _RANGES[ck] = dict(IV.CALL_RANGES)
 
 
+_MP_P = None
+
+
+def _mp_analyse(fn):
+    return _analysis(_MP_P, fn)
+
+
 def auto_discharge(P, sites, tag="all"):
     ck = (id(P), tag)
     setup_call_ranges(P)
@@ -70,6 +77,18 @@ def auto_discharge(P, sites, tag="all"):
         return _AUTO[ck]
     fns = sorted({s["fn"] for s in sites if s["kind"] in ("assert", "call")})
     res = {}
+    todo = [fn for fn in fns if fn in P.fns and not ((id(P.fns[fn]), False) in _FN and _FN[(id(P.fns[fn]), False)][0] is P.fns[fn])]
+    if len(todo) > 8:
+        # the per-function analyses are independent: fan them out over forked workers (the fact base is shared copy-on-write)
+        import multiprocessing as mp
+        global _MP_P
+        _MP_P = P
+        try:
+            with mp.get_context("fork").Pool(min(12, os.cpu_count() or 4)) as pool:
+                for fn, v in zip(todo, pool.map(_mp_analyse, todo, chunksize=1)):
+                    _FN[(id(P.fns[fn]), False)] = (P.fns[fn], v)
+        except Exception:
+            pass            # fall back to the sequential path below
     for fn in fns:
         if fn not in P.fns:
             continue
